@@ -88,7 +88,11 @@ class Gen:
                     ops.append({"op": "spawn", "into": parent_label, "actor": self.late_child()})
                 ops.append({"op": "now", "tag": "graceful"})
             elif r < 0.82:
-                ops.append({"op": "spawn", "into": parent_label, "actor": self.late_child()})
+                late = self.late_child()
+                ops.append({"op": "spawn", "into": parent_label, "actor": late})
+                if rng.random() < 0.3:
+                    # ... and cancels it in the same turn, before it has started
+                    ops.append({"op": "cancel", "task": late["name"], "token": ["unborn"]})
             else:
                 if self.maybe_raise(ops, 2.0):
                     return ops
